@@ -316,6 +316,15 @@ func (ex *Exec) siteHooks(fr *Frame, st *State, instr ssa.Instruction, name stri
 			}
 			ex.oblige("assert@call", fmt.Sprintf("%s#%d:%s", si.short, si.occ, label), instr.Pos(), a.Props, st, c)
 		}
+		for _, a := range s.Assume {
+			c, err := ctx.evalBool(a.Expr)
+			if err != nil {
+				ex.contractProblem("%s: at call %s: %v", a.Pos, s.Callee, err)
+				continue
+			}
+			ex.assume(st.PC, c)
+			ex.assumedClauses = append(ex.assumedClauses, fmt.Sprintf("%s: at call %s assume %s -- %s", FuncName(ex.fn), s.Callee, a.Text, a.Label))
+		}
 	}
 	ex.sitesHit[fmt.Sprintf("%s#%d", si.short, si.occ)] = true
 }
@@ -341,14 +350,14 @@ func (ex *Exec) siteHooksAfter(fr *Frame, st *State, instr ssa.Instruction, name
 	}
 	ctx := &EvalCtx{ex: ex, st: st, old: ex.entry, env: env, oldEnv: ex.entryEnv, pkg: ex.contract.Pkg, fnPos: ex.fn.Pos()}
 	for _, s := range sites {
-		for _, a := range s.Assume {
+		for _, a := range s.AssumePost {
 			c, err := ctx.evalBool(a.Expr)
 			if err != nil {
 				ex.contractProblem("%s: at call %s: %v", a.Pos, s.Callee, err)
 				continue
 			}
 			ex.assume(st.PC, c)
-			ex.assumedClauses = append(ex.assumedClauses, fmt.Sprintf("%s: at call %s assume %s", FuncName(ex.fn), s.Callee, a.Text))
+			ex.assumedClauses = append(ex.assumedClauses, fmt.Sprintf("%s: at call %s assume_post %s -- %s", FuncName(ex.fn), s.Callee, a.Text, a.Label))
 		}
 	}
 }
